@@ -109,11 +109,16 @@ fn run(line: &str) -> String {
     )
 }
 
-/// `c17 --url-probe`: end-to-end observation of the URL the HTTP supplier really requests.
-/// A loopback listener plays the symbol server (always 404) and records every request;
-/// `HttpSymbolSupplier::locate_symbols` runs with base URL `http://127.0.0.1:<port>/root/`.
-/// Case: `<code_file> <debug_file> <debug id text> <code id text>` as above.
-/// Answer: `U|<server_rel of breakpad_sym_lookup: hex or N>|<request targets, hex, comma separated>`
+/// `c17 --url-probe`: end-to-end observation of the URLs the HTTP supplier really requests.
+/// A loopback listener plays the symbol server (always 404) and records every request target.
+/// Case `<code_file> <debug_file> <debug id text> <code id text>` (tokens as above): base URL
+///   `http://127.0.0.1:<port>/root/`; three calls on a fresh supplier — locate_symbols,
+///   locate_file(Binary), locate_file(ExtraDebugInfo).
+///   Answer: `U|<server_rel of breakpad_sym_lookup: hex or N>|<sym reqs>|<binary reqs>|<extra reqs>`
+/// Case `B <suffix hex>`: base URL `http://127.0.0.1:<port>/` + suffix (the server URL goes through
+///   the same `url` parser), module `k.dll` / `a.pdb` / a fixed id, locate_symbols only.
+///   Answer: `B|<reqs>`
+/// Request targets are hex, comma separated, in arrival order.
 fn url_probe() {
     use breakpad_symbols::{HttpSymbolSupplier, SymbolSupplier};
     use std::io::{Read, Write};
@@ -126,7 +131,7 @@ fn url_probe() {
     std::thread::spawn(move || {
         for s in listener.incoming() {
             if let Ok(mut s) = s {
-                let mut buf = [0u8; 8192];
+                let mut buf = [0u8; 16384];
                 let n = s.read(&mut buf).unwrap_or(0);
                 let req = String::from_utf8_lossy(&buf[..n]).to_string();
                 let target = req.lines().next().unwrap_or("").split(' ').nth(1).unwrap_or("").to_string();
@@ -137,31 +142,57 @@ fn url_probe() {
     });
     let rt = tokio::runtime::Builder::new_current_thread().enable_all().build().expect("runtime");
     let dir = tempfile::tempdir().expect("tempdir");
+    let drain = |rx: &mpsc::Receiver<String>| -> String {
+        std::thread::sleep(Duration::from_millis(5));
+        let mut reqs: Vec<String> = vec![];
+        while let Ok(r) = rx.try_recv() {
+            reqs.push(hex(r.as_bytes()));
+        }
+        reqs.join(",")
+    };
     for_each_case(|line| {
         let mut t = Toks::new(line);
-        let cf = tok(t.str());
+        let first = t.str();
+        let mk = |base: String| {
+            HttpSymbolSupplier::new(
+                vec![base],
+                dir.path().join("cache"),
+                dir.path().join("tmp"),
+                vec![],
+                Duration::from_secs(3),
+            )
+        };
+        if first == "B" {
+            let suffix = tok(t.str()).expect("suffix");
+            let m = SimpleModule::from_basic_info(
+                Some("a.pdb".into()),
+                Some(DebugId::from_breakpad("5A9832E5287241C1838ED98914E9B7FF1").unwrap()),
+                Some("k.dll".into()),
+                Some(CodeId::new("5a".into())),
+            );
+            let supplier = mk(format!("http://127.0.0.1:{}/{}", port, suffix));
+            let _ = rt.block_on(supplier.locate_symbols(&m));
+            return format!("B|{}", drain(&rx));
+        }
+        let cf = tok(first);
         let df = tok(t.str());
         let did = tok(t.str()).map(|s| DebugId::from_breakpad(&s).expect("debug id text parses"));
         let cid = tok(t.str()).map(CodeId::new);
         let m = SimpleModule::from_basic_info(df, did, cf, cid);
         let rel = breakpad_sym_lookup(&m).map(|l| l.server_rel);
-        let supplier = HttpSymbolSupplier::new(
-            vec![format!("http://127.0.0.1:{}/root/", port)],
-            dir.path().join("cache"),
-            dir.path().join("tmp"),
-            vec![],
-            Duration::from_secs(3),
-        );
+        let supplier = mk(format!("http://127.0.0.1:{}/root/", port));
         let _ = rt.block_on(supplier.locate_symbols(&m));
-        std::thread::sleep(Duration::from_millis(20));
-        let mut reqs: Vec<String> = vec![];
-        while let Ok(r) = rx.try_recv() {
-            reqs.push(hex(r.as_bytes()));
-        }
+        let r1 = drain(&rx);
+        let _ = rt.block_on(supplier.locate_file(&m, FileKind::Binary));
+        let r2 = drain(&rx);
+        let _ = rt.block_on(supplier.locate_file(&m, FileKind::ExtraDebugInfo));
+        let r3 = drain(&rx);
         format!(
-            "U|{}|{}",
+            "U|{}|{}|{}|{}",
             rel.map(|r| hex(r.as_bytes())).unwrap_or_else(|| "N".into()),
-            reqs.join(",")
+            r1,
+            r2,
+            r3
         )
     });
 }
